@@ -137,26 +137,13 @@ Definition empty_of_kind (k : kind) : option empty_kind :=
   end.
 
 (** * flat (non-nesting) codecs of the root package and internal/messages *)
-(* Writer.Write of an interface-typed ActorRef: nil interface -> "unsupported type for writing: <nil>";
-   *actor.Ref -> writeReflect on a struct without exported fields: NOTHING is written; typed nil -> "cannot write nil pointer" *)
-Definition w_ref (r : eref) : mres bytes :=
+(* writeActorRef: (address, path) as two strings; a nil interface and a typed nil pointer are both
+   written as two empty strings *)
+Definition w_ref (r : eref) : bytes :=
   match r with
-  | RAbsent => MErr (ME EUnsupported)
-  | RRef _ _ => MOk []
-  | RTypedNil => MErr (ME EInvalid)
+  | RRef a p => put_lp4 a ++ put_lp4 p
+  | _ => put_lp4 [] ++ put_lp4 []
   end.
-(* Reader.Read(&field) with field of interface type vivid.ActorRef: readReflect's default case,
-   "unsupported type for reading: vivid.ActorRef", whatever the input *)
-Definition d_ref : dec eref := dfail (ME EUnsupported).
-
-(* OnKill{Killer ActorRef; Reason string; Poison bool} *)
-Definition enc_OnKill (killer : eref) (reason : bytes) (poison : bool) : mres bytes :=
-  let*m k := w_ref killer in MOk (k ++ put_lp4 reason ++ put_bool poison).
-Definition dec_OnKill : dec (eref * bytes * bool) :=
-  let+ k := d_ref in let+ r := d_str in let+ p := d_bool in dret (k, r, p).
-(* OnKilled{Ref ActorRef} *)
-Definition enc_OnKilled (r : eref) : mres bytes := w_ref r.
-Definition dec_OnKilled : dec eref := d_ref.
 (* Pong{PingTime, RespondTime time.Time}: UnixNano of both *)
 Definition enc_Pong (ping resp : Z) : bytes := put_i64 ping ++ put_i64 resp.
 Definition dec_Pong : dec (Z * Z) := let+ p := d_i64 in let+ r := d_i64 in dret (p, r).
@@ -190,6 +177,26 @@ Section Msgs.
   Variable cenc : U -> mres bytes.   (* Codec.Encode *)
   Variable cdec : bytes -> mres U.   (* Codec.Decode *)
   Variable qerr : Z -> option bytes. (* vivid.QueryError: code |-> registered text *)
+  Variable newref : bytes -> bytes -> mres (bytes * bytes).
+                                     (* the registered ActorRef factory = actor.NewRef: normalises and
+                                        validates (address, path); an uninterpreted function here *)
+
+  (* readActorRef: two strings; both empty = nil ref; otherwise the factory rebuilds (or rejects) the ref *)
+  Definition d_ref : dec eref :=
+    let+ a := d_str in let+ p := d_str in
+    if is_nil a && is_nil p then dret RAbsent
+    else match newref a p with
+         | MOk ap => dret (RRef (fst ap) (snd ap))
+         | MErr e => dfail e
+         end.
+  (* OnKill{Killer ActorRef; Reason string; Poison bool} *)
+  Definition enc_OnKill (killer : eref) (reason : bytes) (poison : bool) : bytes :=
+    w_ref killer ++ put_lp4 reason ++ put_bool poison.
+  Definition dec_OnKill : dec (eref * bytes * bool) :=
+    let+ k := d_ref in let+ r := d_str in let+ p := d_bool in dret (k, r, p).
+  (* OnKilled{Ref ActorRef} *)
+  Definition enc_OnKilled (r : eref) : bytes := w_ref r.
+  Definition dec_OnKilled : dec eref := d_ref.
 
   Inductive msg : Type :=
   | M_Empty (e : empty_kind)
@@ -266,8 +273,8 @@ Section Msgs.
   Fixpoint enc_body (m : msg) : mres bytes :=
     match m with
     | M_Empty _ => MOk []
-    | M_OnKill k r p => enc_OnKill k r p
-    | M_OnKilled r => enc_OnKilled r
+    | M_OnKill k r p => MOk (enc_OnKill k r p)
+    | M_OnKilled r => MOk (enc_OnKilled r)
     | M_PipeResult id m' e =>
         (* WriteMessage(m.Message); error switch; WriteFrom(Id, code, text) *)
         let*m w := write_message_with enc_body m' in
@@ -384,6 +391,15 @@ Section Msgs.
     | PETypedNil => False         (* encode error *)
     end.
 
+  (** an ActorRef field survives iff it is nil, or a ref that the factory accepts unchanged (and that is
+      not the pair of empty strings, which reads back as nil); a typed nil pointer reads back as nil *)
+  Definition valid_kref (r : eref) : Prop :=
+    match r with
+    | RAbsent => True
+    | RRef a p => len32 a /\ len32 p /\ (a <> [] \/ p <> []) /\ newref a p = MOk (a, p)
+    | RTypedNil => False
+    end.
+
   Fixpoint ty_msg (m : msg) : Prop :=
     match m with
     | M_PipeResult _ m' e => ty_msg m' /\ ty_perr e
@@ -403,8 +419,8 @@ Section Msgs.
   Fixpoint valid_msg (m : msg) : Prop :=
     match m with
     | M_Empty _ => True
-    | M_OnKill _ _ _ => False                     (* the reader rejects the interface-typed field *)
-    | M_OnKilled _ => False
+    | M_OnKill k r _ => valid_kref k /\ len32 r
+    | M_OnKilled k => valid_kref k
     | M_PipeResult id m' e => len32 id /\ valid_msg m' /\ valid_perr e
     | M_Pong p r => in_i64 p /\ in_i64 r           (* instants UnixNano can represent *)
     | M_Error _ t => len32 t
